@@ -97,7 +97,7 @@ def _receiver_id(e):
     return None
 
 
-@obligation("MATCH.advance", ["C04", "C06"], floor=3, kind="who-may-call + argument source",
+@obligation("MATCH.advance", ["C04", "C06", "C15"], floor=3, kind="who-may-call + argument source",
             why="a match index may rise only on a non-rejecting append response, on the leader's own persistence notice, or after a snapshot install")
 def match_advance(cx):
     ups = update_fns(cx)
@@ -203,7 +203,7 @@ def persist_writers(cx):
             has_term = any(term_is(cx.prog, l, STORE_TERM_CALL) for l in gl)
             if has_term:
                 def below_first(l, v=v):
-                    return l[0] == "is" and l[2] is True and l[1][0] == "bin" and l[1][1] == "Lt" and l[1][2] == v and _first_update_index(l[1][3])
+                    return l[0] == "is" and l[2] is True and l[1][0] == "bin" and l[1][1] == "Lt" and l[1][2] == v and (_first_update_index(l[1][3]) or _first_update_index(cx.prog.inline_wrappers(l[1][3])))
                 def term_ok(l, v=v):
                     r = term_is(cx.prog, l, STORE_TERM_CALL)
                     return r is not None and r[1] == v and r[2][0] == "param"
